@@ -172,6 +172,10 @@ func (d *structDecoder) tryOptimize() {
 }
 
 // decode from '\uXXXX'
+func isHexDigit(c byte) bool {
+	return ('0' <= c && c <= '9') || ('a' <= c && c <= 'f') || ('A' <= c && c <= 'F')
+}
+
 func decodeKeyCharByUnicodeRune(buf []byte, cursor int64) ([]byte, int64, error) {
 	const defaultOffset = 4
 	const surrogateOffset = 6
@@ -180,11 +184,17 @@ func decodeKeyCharByUnicodeRune(buf []byte, cursor int64) ([]byte, int64, error)
 		return nil, 0, errors.ErrUnexpectedEndOfJSON("escaped string", cursor)
 	}
 
+	for i := int64(0); i < defaultOffset; i++ {
+		if !isHexDigit(buf[cursor+i]) {
+			return nil, 0, errors.ErrInvalidCharacter(buf[cursor+i], "\\u hexadecimal character escape", cursor+i)
+		}
+	}
 	r := unicodeToRune(buf[cursor : cursor+defaultOffset])
 	if utf16.IsSurrogate(r) {
 		cursor += defaultOffset
 		// cursor is behind the first escape now
-		if cursor+surrogateOffset < int64(len(buf)) && buf[cursor] == '\\' && buf[cursor+1] == 'u' {
+		if cursor+surrogateOffset < int64(len(buf)) && buf[cursor] == '\\' && buf[cursor+1] == 'u' &&
+			isHexDigit(buf[cursor+2]) && isHexDigit(buf[cursor+3]) && isHexDigit(buf[cursor+4]) && isHexDigit(buf[cursor+5]) {
 			r2 := unicodeToRune(buf[cursor+2 : cursor+surrogateOffset])
 			if r := utf16.DecodeRune(r, r2); r != unicode.ReplacementChar {
 				return []byte(string(r)), cursor + surrogateOffset - 1, nil
@@ -596,6 +606,12 @@ func decodeKeyCharByUnicodeRuneStream(s *Stream) ([]byte, error) {
 		}
 	}
 
+	for i := int64(0); i < defaultOffset; i++ {
+		if !isHexDigit(s.buf[s.cursor+i]) {
+			s.cursor += i
+			return nil, errors.ErrInvalidCharacter(s.char(), "\\u hexadecimal character escape", s.totalOffset())
+		}
+	}
 	r := unicodeToRune(s.buf[s.cursor : s.cursor+defaultOffset])
 	if utf16.IsSurrogate(r) {
 		s.cursor += defaultOffset // behind the first escape
@@ -604,7 +620,8 @@ func decodeKeyCharByUnicodeRuneStream(s *Stream) ([]byte, error) {
 				break
 			}
 		}
-		if s.cursor+surrogateOffset < s.length && s.buf[s.cursor] == '\\' && s.buf[s.cursor+1] == 'u' {
+		if s.cursor+surrogateOffset < s.length && s.buf[s.cursor] == '\\' && s.buf[s.cursor+1] == 'u' &&
+			isHexDigit(s.buf[s.cursor+2]) && isHexDigit(s.buf[s.cursor+3]) && isHexDigit(s.buf[s.cursor+4]) && isHexDigit(s.buf[s.cursor+5]) {
 			r2 := unicodeToRune(s.buf[s.cursor+2 : s.cursor+surrogateOffset])
 			if r := utf16.DecodeRune(r, r2); r != unicode.ReplacementChar {
 				s.cursor += surrogateOffset - 1
@@ -681,7 +698,22 @@ func decodeKeyNotFoundStream(s *Stream, start int64) (*structFieldSet, string, e
 				buf, cursor, p = s.stat()
 			}
 			switch char(p, cursor) {
-			case '"', '\\', '/', 'b', 'f', 'n', 'r', 't', 'u':
+			case '"', '\\', '/', 'b', 'f', 'n', 'r', 't':
+			case 'u':
+				for i := 0; i < 4; i++ {
+					cursor++
+					if char(p, cursor) == nul {
+						s.cursor = cursor
+						if !s.read() {
+							return nil, "", errors.ErrUnexpectedEndOfJSON("string", s.totalOffset())
+						}
+						buf, cursor, p = s.stat()
+					}
+					if !isHexDigit(char(p, cursor)) {
+						s.cursor = cursor
+						return nil, "", errors.ErrInvalidCharacter(char(p, cursor), "\\u hexadecimal character escape", s.totalOffset())
+					}
+				}
 			default:
 				s.cursor = cursor
 				return nil, "", errors.ErrInvalidCharacter(char(p, cursor), "string escape code", s.totalOffset())
